@@ -3,7 +3,9 @@ EXTENDS Signals
 \* constant definitions for the configurations
 GridsSmall  == {<<0, 2, 4>>, <<0, 1, 4>>}
 GridsSim    == {<<0, 2, 4>>, <<1, 2, 3>>, <<0, 1, 4>>, <<0, 3, 4>>, <<0, 1, 2, 4>>, <<-6, -2, 2, 6>>, <<5>>, <<3, 4>>, <<2000000, 2000002, 2000004>>,
-                <<-4, -2, 0, 2, 4, 6>>, <<0, 1, 2, 3, 4>>}
+                <<-4, -2, 0, 2, 4, 6>>, <<0, 1, 2, 3, 4>>,
+                <<4, 6, 8>>, <<-4, -2, 0>>, <<5, 7>>, <<3, 5>>}       \* grids touching <<0, 2, 4>> / <<5>> at exactly one end sample
+GridsEdge   == {<<0, 2, 4>>, <<4, 6, 8>>, <<-4, -2, 0>>, <<5>>, <<5, 7>>, <<3, 5>>, <<1, 2, 3>>, <<-2, 0, 2, 4, 6>>}
 GridsAdd    == {<<0, 2, 4>>, <<1, 2, 3>>, <<0, 1, 4>>, <<2, 4, 6>>}
 ValsSmall   == {<<16, 32, -16>>, <<48>>}
 ValsSim     == {<<16, 32, -16>>, <<48>>, <<64, 0, 32, 16, 80, -48, 96>>, <<>>, <<0, 0, 0, 0>>, <<32, 64>>}
